@@ -9,6 +9,9 @@ package lexer
 //@ define tokstart(l, a, s) = a <= s && allws(l, a, s) && (s >= len(l.input) || !isWhiteSpace(l.input[s]))
 //@ define span(l, s, e) = string(l.input[s:e])
 
+//@ define closeAt(l, k) = k + 1 < len(l.input) && l.input[k] == '*' && l.input[k+1] == '/'
+//@ define commentBody(l, a, e) = forall(a, e, func(k int) bool { return l.input[k] != 0 && implies(closeAt(l, k), k == e - 2) })
+
 //@ func New
 //@   fresh
 //@   ensures wf(result) && result.pos == 0 && !result.lineMode
@@ -66,7 +69,9 @@ package lexer
 //@   ensures  old(l.pos) + 1 <= l.pos && l.pos <= len(l.input)
 //@   ensures  literal:: result == span(l, old(l.pos)-1, l.pos)
 //@   ensures  closed:: (l.pos >= old(l.pos) + 3 && l.input[l.pos-2] == '*' && l.input[l.pos-1] == '/') || l.pos == len(l.input) || l.input[l.pos] == 0
+//@   ensures  minimal:: commentBody(l, old(l.pos) + 1, l.pos)
 //@   loop 1 invariant old(l.pos) + 2 <= l.pos && pos1 == old(l.pos) - 1 && l.pos <= len(l.input) + 1
+//@   loop 1 invariant forall(old(l.pos) + 1, l.pos - 1, func(k int) bool { return l.input[k] != 0 && !closeAt(l, k) })
 //@   loop 1 invariant ch == ite(l.pos - 1 < len(l.input), l.input[l.pos-1], 0)
 //@   loop 1 decreases len(l.input) + 1 - l.pos
 //@   property C16 C08
@@ -77,7 +82,9 @@ package lexer
 //@   ensures  old(l.pos) < l.pos
 //@   ensures  closed:: implies(result1, l.pos <= len(l.input) && l.input[l.pos-1] == sep)
 //@   ensures  unterminated:: implies(!result1, l.pos - 1 >= len(l.input) || l.input[l.pos-1] == 0)
+//@   ensures  rawminimal:: implies(result1 && sep != '"', forall(old(l.pos), l.pos - 1, func(k int) bool { return l.input[k] != sep && l.input[k] != 0 }))
 //@   loop 1 invariant old(l.pos) <= l.pos
+//@   loop 1 invariant implies(sep != '"', forall(old(l.pos), l.pos, func(k int) bool { return k < len(l.input) && l.input[k] != sep && l.input[k] != 0 }))
 //@   loop 1 decreases len(l.input) - l.pos
 //@   property C16 C08
 
@@ -135,6 +142,8 @@ package lexer
 //@   ensures  literal:: implies(!isEndTok(result) && litTok(result), result.literal == span(l, s, l.pos))
 //@   ensures  linecomment:: implies(result.tokenType == token.LINECOMMENT, lineCommentOK(l, s, l.pos))
 //@   ensures  string:: implies(result.tokenType == token.STRING, strTokOK(l, s, l.pos))
+//@   ensures  rawstring:: implies(result.tokenType == token.STRING && l.input[s] == '`', forall(s + 1, l.pos - 1, func(k int) bool { return l.input[k] != '`' && l.input[k] != 0 }))
+//@   ensures  blockcomment:: implies(result.tokenType == token.BLOCKCOMMENT, l.pos >= s + 2 && l.input[s] == '/' && l.input[s+1] == '*' && commentBody(l, s + 2, l.pos))
 //@   ensures  illegal:: implies(result.tokenType == token.ILLEGAL, l.pos == s + 1)
 //@   ensures  end:: implies(isEndTok(result), endOK(l, s))
 //@   ensures  endmarker:: implies(isEndTok(result), result == l.EOLEOF())
